@@ -128,6 +128,10 @@ def faults(rnd, lang):
         res.append((lines[:pos] + ["      | a |"] + lines[pos:], pos + 1, "short-table-row"))
     for pos in marks["before_scenario"]:
         res.append((lines[:pos] + ["  @a b"] + lines[pos:], pos + 1, "malformed-tag"))
+    # an Examples block directly under a Rule line (whatever precedes the Rule: a scenario or an outline with examples)
+    rk, ek = {"en": ("Rule", "Examples"), "de": ("Regel", "Beispiele")}[lang]
+    res.append((lines + ["  %s: late" % rk, "    %s: e" % ek, "      | x |", "      | 1 |"], len(lines) + 2, "examples-under-rule"))
+    res.append((lines + ["  %s: late" % rk, "    about the rule", "    %s:" % ek, "      | x |"], len(lines) + 3, "examples-under-rule"))
     return res
 
 
